@@ -507,7 +507,7 @@ func runProperty(prop string, ps *propSpec, opt options) int {
 		}
 		budget := 8 * time.Minute
 		if opt.tier == "thorough" {
-			budget = 45 * time.Minute
+			budget = 20 * time.Minute
 		}
 		if v, ok := params["budgetSec"]; ok {
 			budget = time.Duration(v) * time.Second
